@@ -1,0 +1,138 @@
+//! Verification hook (compiled only with `--cfg affinitree_verif`): a thread-local tap on
+//! [`Polytope::solve_linprog`] that logs every LP call and can override the answer of
+//! selected calls with a fault. With the cfg flag off this module does not exist.
+
+use std::cell::RefCell;
+
+use ndarray::{Array1, Array2};
+
+use super::affine::Polytope;
+use super::polyhedron::PolytopeStatus;
+
+/// Kinds of solver misbehaviour that can be injected.
+#[derive(Clone, Copy, Debug, PartialEq)]
+pub enum Fault {
+    /// the solver reports an error
+    Error,
+    /// the solver reports an unbounded objective
+    Unbounded,
+    /// the solver returns an "optimal" point slightly outside the polytope
+    Perturbed,
+    /// the solver returns an "optimal" point far outside the polytope
+    FarOff,
+}
+
+/// One recorded call of `solve_linprog`.
+#[derive(Clone, Debug)]
+pub struct LpCall {
+    pub mat: Array2<f64>,
+    pub bias: Array1<f64>,
+    pub cost: Array1<f64>,
+    /// what the solver really answered
+    pub real: PolytopeStatus,
+    /// what the caller got (differs from `real` when a fault was injected)
+    pub answer: PolytopeStatus,
+    pub fault: Option<Fault>,
+}
+
+#[derive(Default)]
+struct Tap {
+    active: bool,
+    busy: bool,
+    n_calls: usize,
+    plan: Vec<(usize, Fault)>,
+    log: Vec<LpCall>,
+}
+
+thread_local! {
+    static TAP: RefCell<Tap> = RefCell::new(Tap::default());
+}
+
+/// Starts logging; `plan` maps the 0-based number of an LP call to the fault injected there.
+pub fn start(plan: Vec<(usize, Fault)>) {
+    TAP.with(|t| {
+        *t.borrow_mut() = Tap {
+            active: true,
+            busy: false,
+            n_calls: 0,
+            plan,
+            log: Vec::new(),
+        }
+    });
+}
+
+/// Stops logging and returns the recorded calls.
+pub fn stop() -> Vec<LpCall> {
+    TAP.with(|t| {
+        let mut t = t.borrow_mut();
+        t.active = false;
+        t.busy = false;
+        std::mem::take(&mut t.log)
+    })
+}
+
+fn outside_point(poly: &Polytope, start: &Array1<f64>, amount: f64) -> Array1<f64> {
+    // move along the normal of the first non-zero row until that row is violated by `amount`
+    for (row, bias) in poly.mat.rows().into_iter().zip(poly.bias.iter()) {
+        let norm2: f64 = row.iter().map(|x| x * x).sum();
+        if norm2 > 0.0 {
+            let slack = bias - row.dot(start);
+            let step = (slack.max(0.0) + amount) / norm2;
+            return start + &(&row * step);
+        }
+    }
+    start + amount
+}
+
+fn apply_fault(poly: &Polytope, fault: Fault, real: &PolytopeStatus) -> PolytopeStatus {
+    match fault {
+        Fault::Error => PolytopeStatus::Error("injected solver error".to_string()),
+        Fault::Unbounded => PolytopeStatus::Unbounded,
+        Fault::Perturbed | Fault::FarOff => {
+            let amount = if fault == Fault::Perturbed { 0.01 } else { 1000.0 };
+            let start = match real {
+                PolytopeStatus::Optimal(w) => w.clone(),
+                _ => Array1::zeros(poly.indim()),
+            };
+            PolytopeStatus::Optimal(outside_point(poly, &start, amount))
+        }
+    }
+}
+
+/// Called at the top of `solve_linprog`. Returns `None` when the tap is inactive (or for the
+/// nested call that obtains the solver's real answer).
+pub fn lp_tap(poly: &Polytope, cost: &Array1<f64>) -> Option<PolytopeStatus> {
+    let go = TAP.with(|t| {
+        let mut t = t.borrow_mut();
+        if !t.active || t.busy {
+            false
+        } else {
+            t.busy = true;
+            true
+        }
+    });
+    if !go {
+        return None;
+    }
+    let real = poly.solve_linprog(cost.clone(), false);
+    TAP.with(|t| {
+        let mut t = t.borrow_mut();
+        t.busy = false;
+        let idx = t.n_calls;
+        t.n_calls += 1;
+        let fault = t.plan.iter().find(|(i, _)| *i == idx).map(|(_, f)| *f);
+        let answer = match fault {
+            Some(f) => apply_fault(poly, f, &real),
+            None => real.clone(),
+        };
+        t.log.push(LpCall {
+            mat: poly.mat.clone(),
+            bias: poly.bias.clone(),
+            cost: cost.clone(),
+            real,
+            answer: answer.clone(),
+            fault,
+        });
+        Some(answer)
+    })
+}
